@@ -17,7 +17,7 @@ RULE = ("cases are (kind, 32-byte key class, plaintext bytes, method) drawn from
         "distinct = distinct case content")
 REQUIRED = ("aes_oracle_decrypts", "aes_library_decrypts_oracle_output", "xor_oracle_checks", "malformed_rejected",
             "iv_sets_checked", "wrong_key_checks", "stored_secret_shapes_rejected", "sessions_judged", "provider_objects_judged",
-            "rekeyed_objects_judged", "key_file_replaced_between_contexts", "iv_checks_under_reseeded_global_random",
+            "rekeyed_objects_judged", "key_file_replaced_between_contexts", "iv_checks_under_reseeded_global_random", "large_plaintexts",
             "stored_secret_reloaded_after_rekey")
 ASSUMPTIONS = ["the pure-Python AES-256-CBC/PKCS7 oracle (vf/aes_ref.py, self-tested on FIPS-197 C.3 and SP 800-38A "
                "F.2.5/F.2.6) is the 'standard implementation'",
@@ -64,6 +64,11 @@ def generate(rng, ctx):
     kind = weighted(rng, [(6, "roundtrip"), (1, "fresh_iv"), (3, "malformed"), (2, "stored"), (2, "session"), (1.5, "provider"), (1.5, "rekeyed")])
     case = {"kind": kind, "key": _key(rng), "pt": _plaintext(rng),
             "method": rng.choice(["aes", "xor", "best"]), "r": rng.getrandbits(32)}
+    if kind == "roundtrip" and rng.random() < (0.02 if ctx.tier == "thorough" else 0.004):
+        # sizes around the powers of two where buffers, chunked processing and key streams tend to end
+        n = rng.choice([4096, 65535, 65536, 65537, 131072, 70000, 32768, 16384])
+        case["pt"] = bytes((case["r"] + i * 7) % 251 for i in range(n))
+        case["big"] = n
     if kind == "fresh_iv":
         case["method"] = rng.choice(["aes", "best"])
     if kind == "session":
@@ -83,6 +88,14 @@ def generate(rng, ctx):
                                    "ct_none", "bad_pad_b64", "missing_pad_b64", "method_int", "method_list", "unknown_method",
                                    "short_ct", "unaligned_ct", "empty_dict", "tuple"])
     return case
+
+
+def directed(ctx):
+    """Every run sees the sizes at which chunked processing, buffers and prepared key streams end."""
+    for n in (4096, 16384, 32768, 65535, 65536, 65537, 70000, 131072):
+        for method in ("aes", "xor"):
+            yield {"kind": "roundtrip", "key": bytes((7 * i + n) % 256 for i in range(32)), "method": method, "r": n,
+                   "pt": bytes((n + i * 7) % 251 for i in range(n)), "big": n}
 
 
 def abbreviate(case):
@@ -112,6 +125,8 @@ def run(case, ctx, res):
     feat = "%s/%s" % (kind, method)
 
     if kind == "roundtrip":
+        if case.get("big"):
+            res.count("large_plaintexts")
         with kf as k:
             sv = k.encrypt(pt, method=method)
             back = k.decrypt(sv)
